@@ -52,7 +52,7 @@ pub fn generate(g: &mut G, _index: u64) -> Scenario {
         }
     }
     if g.chance(1, 4) {
-        spec.on_start.push(Work::Yield(1));
+        spec.on_start.push(if g.chance(1, 2) { Work::Yield(1) } else { Work::Sleep(g.range(3, 40)) });
     }
     if with_timers && g.chance(1, 4) {
         // registered by the incarnation that is ending: it must not fire into the next one
